@@ -21,7 +21,8 @@ RULE = ('W: depfile texts = (a) gcc_depfile-model output for 0..6 dependency nam
         'recipes (build; build; touch; build; delete leaf; build).  System: generated C projects configured by the real '
         'bfg9000 (Make backend), built by real make with a logging compiler wrapper (CC and CXX) over random edit histories; a '
         'quarter of the projects mix C and C++ sources in one program (two compile rules), half use a precompiled header; the '
-        'first edits delete a header that only the objects of ONE compile rule include (C / C++ / ordinary objects next to a pch), '
+        'first edits modify a header that only the object of a source in an oddly named directory (blank, #) includes and delete a '
+        'header that only the objects of ONE compile rule include (C / C++ / ordinary objects next to a pch), '
         'the last edit of every history removes every #include of a project header and deletes all of them at once.')
 TRUSTED = ('R model gcc_depfile (Misc/Depfix.v) validated against gcc 12 and clang 14 on this run',
            'R model mk_read (Misc/Depfix.v) validated against GNU Make 4.3 --print-data-base on this run',
@@ -505,6 +506,9 @@ RISKY = {'%': 'hdr-name-percent', '=': 'hdr-name-equals', '\t': 'hdr-name-tab',
          ':': 'hdr-name-colon', ';': 'hdr-name-semicolon', '|': 'hdr-name-bar'}
 
 
+ODD_DIRS = ['d r', 'a#b', 'sub/de ep']
+
+
 class Proj:
     """A generated C project: sources s<i>.c, headers with generated names, an include DAG.
     hdr[id] = {'name', 'v', 'inc': [ids]}   (a header includes only headers with a larger id -> acyclic)
@@ -524,6 +528,14 @@ class Proj:
             self.add_header()
         for _ in range(nsrc if nsrc is not None else rng.randint(3 if mixed else 2, 5)):
             self.add_source()
+        if special:
+            # some source lives in a directory whose name needs escaping, and one header is known to its object alone (the
+            # object's depfile, read back through its -include line, is the only place that names it)
+            odd = [i for i in sorted(self.src) if self.src[i]['dir']]
+            if not odd:
+                odd = [max(self.src)]
+                self.src[odd[0]]['dir'] = rng.choice(ODD_DIRS)
+            self.only['dir'] = self.exclusive_header([rng.choice(odd)])
         if mixed:
             ss = sorted(self.src)
             self.src[rng.choice(ss[1:])]['lang'] = 'cxx'        # both languages occur (the first source may be either)
@@ -595,7 +607,7 @@ class Proj:
         self.next_s += 1
         hs = list(self.hdr)
         self.src[i] = {'k': self.rng.randint(1, 9), 'inc': self.rng.sample(hs, self.rng.randint(0, min(3, len(hs)))),
-                       'dir': self.rng.choice(['', '', 'd r', 'a#b', 'sub/de ep']) if self.special else '',
+                       'dir': self.rng.choice(['', ''] + ODD_DIRS) if self.special else '',
                        'lang': self.rng.choice(['c', 'cxx']) if self.mixed else 'c'}
         return i
 
@@ -878,7 +890,8 @@ def run_history(rep, seed, idx, cc, nedits, risky=None):
             proj.src[min(proj.src)]['inc'].append(h)
         # scheduled first edits: a header that only the sources of ONE compile rule include (C / C++ / ordinary objects
         # next to a precompiled header) stops being included and is deleted
-        scheduled = [proj.only[k] for k in ('cxx', 'c', 'ord') if k in proj.only] if risky is None else []
+        # ... and before that, a header that only the object of a source in an oddly named directory includes is modified
+        scheduled = [(k, proj.only[k]) for k in ('dir', 'cxx', 'c', 'ord') if k in proj.only] if risky is None else []
         allnames = set(h['name'] for h in proj.hdr.values())
         run_.sync(proj)
         p = run_.configure()
@@ -927,8 +940,14 @@ def run_history(rep, seed, idx, cc, nedits, risky=None):
                 proj.hdr[h0]['v'] += rng.randint(1, 5)
                 ed = ['mod_hdr', proj.hdr[h0]['name']]
             elif risky is None and scheduled:
-                h0 = scheduled.pop(0)
-                ed = proj.delete_header(h0) if h0 in proj.hdr else proj.edit()
+                k0, h0 = scheduled.pop(0)
+                if h0 not in proj.hdr:
+                    ed = proj.edit()
+                elif k0 == 'dir':
+                    proj.hdr[h0]['v'] += rng.randint(1, 5)
+                    ed = ['mod_hdr', proj.hdr[h0]['name']]
+                else:
+                    ed = proj.delete_header(h0)
             elif risky is None:
                 ed = proj.edit()
             else:               # fixed scenario: touch the risky header, then stop including it and delete it
